@@ -143,6 +143,19 @@ CLAIMS = {
              "scripted server is itself validated against PagingModel (L2).",
         ref="3 C15", technique="TLA+ model of client loop and server model-checked with TLC; TLC-emitted cases replayed into the "
                               "code, judged and compared with the model by TLC"),
+    "C16": dict(
+        text="Auth.tla models auth.Client.Do for Bearer registries with the scope-keyed cache and the Once-coalesced token "
+             "fetch for up to 3 concurrent requests over two hosts and every realm placement, with NoLeak, Bounded, ReuseKey and "
+             "one-fetch-per-key as invariants over all interleavings; the real auth.Client then serves generated histories "
+             "(sequential, identical concurrent calls, concurrent mixes over two registries; none/Basic/Bearer schemes; realms on "
+             "the own host, a token service or the other registry; password, refresh-token and access-token credentials; scope "
+             "hints in any order and duplication; scheme changes; shared, single-context and no cache) through a gated innermost "
+             "RoundTripper under synctest, and AuthMon.tla judges every outgoing request (which known secrets it carries, also "
+             "inside Basic material, and where it goes), every call (send and fetch bounds, non-401 result), coalescing, the "
+             "scope set of every attached token and CleanScopes against the canonical form.",
+        note="Redirects performed by net/http below the auth client are not modelled. The single-context cache is documented to "
+             "ignore scopes; ReuseKey is instantiated with host only for it.",
+        ref="3 C16", technique=TECH + " (AuthMon.tla; gate-level schedules of concurrent requests)"),
     "C17": dict(
         text="Retry.tla transcribes retry.Transport.RoundTrip (attempt loop, policy decision, rewind through GetBody, pause, "
              "cancellation) over every server script of <= 3-4 answers (200, 401, 404, 408, 429 with/without Retry-After, "
